@@ -92,10 +92,19 @@ impl Duration {
         ensures r.ns() == (if self.ns() + o.ns() <= DURATION_MAX_NS() { self.ns() + o.ns() } else { DURATION_MAX_NS() }), r.wf()
     { unimplemented!() }
 }
-// R6: float -> Duration conversion (trunc / fract / casts) and as_secs_f64 are opaque
-uninterp spec fn dur_of(s: real) -> Duration;
-#[verifier::external_body]
-fn secs_to_duration(s: F64) -> (r: Duration) ensures r == dur_of(s.r()) { unimplemented!() }
+// float -> Duration: whole seconds (saturating at u64::MAX) plus the nanoseconds of the fractional part
+spec fn dur_of(s: real) -> Duration {
+    let whole: nat = if s >= 18446744073709551615real { 18446744073709551615nat } else { rfloor(s) as nat };
+    Duration { ns: Ghost(whole * 1_000_000_000 + rfloor((s - rfloor(s) as real) * 1_000_000_000real) as nat) }
+}
+impl Duration {
+    // std: panics when the value is negative, not finite or does not fit (ASSUMED from the std documentation)
+    #[verifier::external_body]
+    pub fn from_secs_f64(s: F64) -> (r: Duration)
+        requires s.fin(), 0real <= s.r() < 18446744073709551616real
+        ensures r.wf()
+    { unimplemented!() }
+}
 #[verifier::external_body]
 fn as_secs_f64(d: Duration) -> (r: F64) ensures r.r() == secs(d), r.fin() { unimplemented!() }
 
@@ -238,18 +247,34 @@ UNIT = Unit(
                     ("C09-steady-rate-reported-exactly", "now.ns() > self.start_time.ns() && now == self.prev_time ==> forall|rr: real| #[trigger] self.steady(rr) ==> r.r() == rr")],
            findings=[("C09-decays-monotonically-while-stalled",
                       "forall|t: Instant| self.prev_time.ns() <= t.ns() <= now.ns() && t.ns() > self.start_time.ns() ==> r.r() <= #[trigger] self.rate_at(t)")]),
+        Fn("src/state.rs", None, "secs_to_duration", ret="r", sig_rewrites=F64_RW,
+           rewrites=[Rw("R6", r"s\.trunc\(\) as u64", "s.trunc().trunc_u64()", count="any"),
+                     Rw("R6", r"\(s\.fract\(\) \* 1_000_000_000f64\) as u32", "{ let __f = s.fract(); proof { assert(__f.r() * 1_000_000_000real < 1_000_000_000real) by (nonlinear_arith) requires __f.r() < 1real; } (__f * F64::ratio(1_000_000_000, 1)).trunc_u32() }", count="any")],
+           ensures=[("C09-eta-conversion", "s.r() >= 0real ==> r == dur_of(s.r())")],
+           proofs=[("@start", "after", """        proof {
+            let fr = s.r() - rfloor(s.r()) as real;
+            assert(0real <= fr < 1real);
+            assert(0real <= fr * 1_000_000_000real < 1_000_000_000real) by (nonlinear_arith) requires 0real <= fr < 1real;
+        }""")]),
         Fn("src/state.rs", "ProgressState", "is_finished", ensures=[("def", "r == self.finished()")]),
         Fn("src/state.rs", "ProgressState", "pos", rewrites=[K.AORD(1)], ensures=[("C07-pos", "r == self.pos.pos@")]),
         Fn("src/state.rs", "ProgressState", "eta", ret="r",
            rewrites=[K.AORD(1), Rw("R6", r"sps == 0\.0", "sps == F64::ratio(0, 1)"),
                      CAST],
            requires=[("clock", "self.clock_ok()")],
-           ensures=[("C09-eta-is-remaining-over-rate", "r == self.eta_spec()"),
+           proofs=[(r"secs_to_duration\(", "before", """        proof {
+            if now_model().ns() > self.est.start_time.ns() {
+                let m = choose|m: real| self.est.inv(m);
+                assert(sps.r() >= 0real);
+                lemma_div_nonneg((if len >= pos { len - pos } else { 0 }) as real, sps.r());
+            }
+        }""")],
+           ensures=[("C09-eta-is-remaining-over-rate", "now_model().ns() > self.est.start_time.ns() ==> r == self.eta_spec()"),
                     ("C09-eta-zero-when-nothing-to-estimate", "self.finished() || self.len is None || self.est.rate_at(now_model()) == 0real ==> r.ns() == 0")]),
         Fn("src/state.rs", "ProgressState", "duration", ret="r",
            requires=[("clock", "self.clock_ok()")],
            ensures=[("C09-duration-is-elapsed-plus-eta",
-                     "r.ns() == (if self.len is None || self.finished() { 0 } else { let e = (now_model().ns() - self.started.ns()) as nat + self.eta_spec().ns(); if e <= DURATION_MAX_NS() { e } else { DURATION_MAX_NS() } })")]),
+                     "now_model().ns() > self.est.start_time.ns() ==> r.ns() == (if self.len is None || self.finished() { 0 } else { let e = (now_model().ns() - self.started.ns()) as nat + self.eta_spec().ns(); if e <= DURATION_MAX_NS() { e } else { DURATION_MAX_NS() } })")]),
         Fn("src/state.rs", "ProgressState", "per_sec", ret="r", sig_rewrites=F64_RW,
            rewrites=[Rw("R6", r"self\.pos\(\) as f64 / self\.started\.elapsed\(\)\.as_secs_f64\(\)", "F64::from_u64(self.pos()) / as_secs_f64(self.started.elapsed())")],
            requires=[("clock", "self.clock_ok()")],
